@@ -81,6 +81,10 @@ CHECKS = {
    technique="TLA+ OneShell.tla (listener, broker events, graceful shutdown, exit) model-checked with TLC incl. liveness; every edge of its graph replayed with the real binary started with -one-shell on a pty and real TLS clients",
    text="OneShell.tla states ClosedOnlyAfterFull, OpenWhileNotFull, ShellUndisturbed, NoHelpAfterGone, StaysWhileShellAttached and, under fairness, ClosesAfterFull and ExitsAtNextLine; TLC checks them over every arrival order (in/out, out/in, /io), refused and dropped half-attached attempts beforehand, probes, traffic and each way the shell may end. Walks covering every edge are replayed with the real binary on a pseudo-terminal: connect(2) probes before and after the ready notice, traffic both ways through the surviving shell, the shell ended by closing one of its streams, then the operator's line: exit status 0, farewell, no callback help after the shell is gone, termios restored.",
    note="'Shortly' is 3 s, the deciding line is entered 1.2 s after the shell has gone (the graceful shutdown polls up to 500 ms apart). An implementation ahead of the specification's silent steps is accepted."),
+ "C19": dict(level="model_checking", design="DESIGN.md §6 C19, §4.4",
+   technique="TLA+ Opshell.tla (discrete-time mute state machine) model-checked with TLC incl. liveness; the edges of its graph replayed in real time against the real lib/opshell on a pseudo-terminal",
+   text="Opshell.tla models Ctrl+O, shell output, status lines, the silence timer and time in half-second ticks; TLC checks MutedDropsOnlyPlain, NothingDroppedWithoutCtrlO, UnmuteOnlyAfterCalm, SuppressedPushesTimer, AlreadyMutedChangesNothing and MuteEndsByItself over every schedule within the bounds. Walks covering the graph's edges are replayed in real time: a helper built from /verif hosts the real opshell.New + Shell.Do on a pty, output and status lines are injected at their ticks through a side channel, Ctrl+O is typed on the pty, and the terminal output is read with arrival times (which markers appear, the announcements, the un-muting instant within -0.45/+0.6 tick).",
+   note="Real time: schedules whose events cannot be sent within 120 ms of plan are re-run or dropped; events coinciding with the timer's expiry are not generated. Quick replays a seeded subset of the edge cover, thorough all of it."),
 }
 
 PENDING = {}
